@@ -604,6 +604,7 @@ PROPS['C07']['rules'] += [R6.rule_transpose_copies]
 PROPS['C11']['rules'] += [R6.rule_dict_form]
 PROPS['C12']['rules'] += [R6.rule_negative_slice]
 PROPS['C19']['rules'] += [R6.rule_first_probe]
+PROPS['C19']['rules'] += [R6.rule_sparse_fill]
 PROPS['C19']['rules'] += [R6.rule_empty_reduce]
 PROPS['C13']['rules'] += [R6.rule_reciprocal]
 PROPS['C16']['rules'] += [R6.rule_eq_fields]
